@@ -48,6 +48,12 @@ def run(chk: Check) -> None:
     _data_readers(chk)
     codec_state(chk, "R14.5", ("auxdata", "serialization"))
     no_result_caches(chk, "R14.5")
+    # "re-encoded under the current type name" means through the codec of each type head
+    from .c07 import _tree_dispatch
+    from .codecs import codec_facts
+    sub = chk.sub()
+    _tree_dispatch(sub, codec_facts(chk.repo))
+    chk.adopt(sub, None, "R14.2")
 
 
 def _typestate(chk: Check, ad) -> None:
@@ -229,8 +235,14 @@ def _from_protobuf(chk: Check, ad) -> None:
     ok = len(mk) == 1
     if ok:
         kw = {k.arg: k.value for k in mk[0].keywords}
-        ok = attr_path(kw.get("type_name", ast.Constant(0))) == (proto, "type_name") and \
-            "lazy_container" in kw and isinstance(kw["lazy_container"], ast.Name)
+        lc = kw.get("lazy_container")
+        if isinstance(lc, ast.Name):
+            lc = local_aliases(f.node).get(lc.id, lc)
+        # the container is created for every table, whatever its payload (an empty payload is
+        # still the payload to write back)
+        unconditional = len(ctor) == 1 and lc is ctor[0] and \
+            not [t for t, _v in CFG(f.node).facts_at(CFG(f.node).node_of(ctor[0])) if not isinstance(t, ast.stmt)]
+        ok = attr_path(kw.get("type_name", ast.Constant(0))) == (proto, "type_name") and unconditional
     chk.ob("R14.3", "AuxData._from_protobuf:constructs-lazy", ok, f.loc(),
            "the loaded table must be constructed with the loaded type name and the lazy container "
            "(no eager decode)", 2)
